@@ -199,6 +199,15 @@ def fam_limit(seed, n_random, runs):
                     [["wr", "out", 2], ["wr", "err", 1], ["exit"]]
             out.append(base("lim-huge%d-u%d" % (j, unit), piped, unit, 4 if unit == 4096 else 4096, 2, child,
                             [{"limit": 3}, {"limit": lim}, {"limit": lim}], runs=1))
+    # memory is short: the k-th growth of a result buffer is refused.  The process may abort (what Rust does); if the
+    # call returns instead, what was read from the pipes must not be lost -- it comes with the error or with later reads
+    for j, kth in enumerate([1, 2, 3, 4]):
+        for piped, child in ((["out"], [["wr", "out", 3], ["wr", "out", 5], ["exit"]]),
+                             (["out", "err"], [["wr", "out", 4], ["wr", "err", 4], ["wr", "out", 3], ["exit"]])):
+            sc = base("lim-oom%d-%s" % (j, "".join(x[0] for x in piped)), piped, 4096, 16, 0, child,
+                      [{"limit": 200}, {"limit": 200}, {"limit": 200}, {"limit": 200}], runs=1)
+            sc["alloc_fail"] = kth
+            out.append(sc)
     # an echoing child and far more input than the pipes hold: every size-limited read is cut short while input is still
     # being delivered, which must go on -- exactly once -- in the later reads
     for j, (unit, cap, lim) in enumerate([(4096, 2, 1), (4096, 3, 2), (2048, 4, 3), (1024, 8, 5)]):
